@@ -23,6 +23,8 @@ mod exec;
 mod diff;
 #[cfg(feature = "std")]
 mod mon_exec;
+#[cfg(any(feature = "std", feature = "stdlite"))]
+mod mon_c06;
 
 pub struct Args {
     pub prop: String,
@@ -86,6 +88,8 @@ fn main() {
     match a.prop.as_str() {
         #[cfg(feature = "std")]
         "C01" | "C03" | "C04" => mon_exec::run(&a.prop.clone(), &a, &mut rep),
+        #[cfg(any(feature = "std", feature = "stdlite"))]
+        "C06" => mon_c06::run(&a, &mut rep),
         #[cfg(feature = "std")]
         "dbg-long" => {
             dbg_long(&a);
